@@ -24,7 +24,8 @@ Inductive tfield :=
 | FHexTok                                  (* one token: hex, or "-" for the empty string (NSEC3PARAM salt) *)
 | FAlg                                     (* get_string + dns.dnssectypes.Algorithm.make; printed as a number *)
 | FTag                                     (* CAA tag: get_string().encode(), alphanumeric *)
-| FBitmap.                                 (* rest of line: type mnemonics, Bitmap.from_text *)
+| FBitmap                                  (* rest of line: type mnemonics, Bitmap.from_text *)
+| FB32.                                    (* NSEC3 next hashed owner: base32hex, lower case, no padding *)
 
 Inductive tval :=
 | VInt (z : Z)
@@ -448,6 +449,66 @@ Definition bitmap_token_type (t : token) : res Z :=
   do v <- rdtype_from_text (tvalue u);
   if v =? 0 then Lib eSyntax else Ok v.
 
+(* ---------- base32hex as used by NSEC3 (base64.b32encode/b32decode + the translation tables) ---------- *)
+(* 5 octets -> 8 five-bit values; the last group is zero-filled and cut to ceil(8k/5) characters *)
+Definition b32_group (b0 b1 b2 b3 b4 : Z) : list Z :=
+  [b0 / 8; (b0 mod 8) * 4 + b1 / 64; (b1 / 2) mod 32; (b1 mod 2) * 16 + b2 / 16;
+   (b2 mod 16) * 2 + b3 / 128; (b3 / 4) mod 32; (b3 mod 4) * 8 + b4 / 32; b4 mod 32].
+
+Fixpoint b32_values (d : list Z) : list Z :=
+  match d with
+  | [] => []
+  | [b0] => firstn 2 (b32_group b0 0 0 0 0)
+  | [b0; b1] => firstn 4 (b32_group b0 b1 0 0 0)
+  | [b0; b1; b2] => firstn 5 (b32_group b0 b1 b2 0 0)
+  | [b0; b1; b2; b3] => firstn 7 (b32_group b0 b1 b2 b3 0)
+  | b0 :: b1 :: b2 :: b3 :: b4 :: r => b32_group b0 b1 b2 b3 b4 ++ b32_values r
+  end.
+
+(* NSEC3._next_text: b32encode, translate to the hex alphabet, lower(), rstrip("=") *)
+Definition b32hex_encode (d : list Z) : list Z := map hexdigit (b32_values d).
+
+(* value of a character after .upper().translate(b32_hex_to_normal) in the standard base32 alphabet:
+   0-9 and A-V are the base32hex digits; W-Z are not translated and are letters of the standard alphabet *)
+Definition b32hex_val (c : Z) : option Z :=
+  let c := upper_c c in
+  if (48 <=? c) && (c <=? 57) then Some (c - 48)
+  else if (65 <=? c) && (c <=? 86) then Some (c - 55)
+  else if (87 <=? c) && (c <=? 90) then Some (c - 65)
+  else None.
+
+Fixpoint opt_map {A B} (f : A -> option B) (l : list A) : option (list B) :=
+  match l with
+  | [] => Some []
+  | x :: r => match f x, opt_map f r with Some y, Some ys => Some (y :: ys) | _, _ => None end
+  end.
+
+Definition b32_bytes (v0 v1 v2 v3 v4 v5 v6 v7 : Z) : list Z :=
+  [v0 * 8 + v1 / 4; (v1 mod 4) * 64 + v2 * 2 + v3 / 16; (v3 mod 16) * 16 + v4 / 2;
+   (v4 mod 2) * 128 + v5 * 4 + v6 / 8; (v6 mod 8) * 32 + v7].
+
+(* full groups of 8 values, then the partial group: 2, 4, 5 or 7 values give 1, 2, 3 or 4 octets *)
+Fixpoint b32_decode_values (vs : list Z) : res (list Z) :=
+  match vs with
+  | [] => Ok []
+  | v0 :: v1 :: v2 :: v3 :: v4 :: v5 :: v6 :: v7 :: r =>
+      do t <- b32_decode_values r; Ok (b32_bytes v0 v1 v2 v3 v4 v5 v6 v7 ++ t)
+  | [v0; v1] => Ok (firstn 1 (b32_bytes v0 v1 0 0 0 0 0 0))
+  | [v0; v1; v2; v3] => Ok (firstn 2 (b32_bytes v0 v1 v2 v3 0 0 0 0))
+  | [v0; v1; v2; v3; v4] => Ok (firstn 3 (b32_bytes v0 v1 v2 v3 v4 0 0 0))
+  | [v0; v1; v2; v3; v4; v5; v6] => Ok (firstn 4 (b32_bytes v0 v1 v2 v3 v4 v5 v6 0))
+  | _ => Internal iBinascii
+  end.
+
+(* NSEC3.from_text for the next field: .encode("ascii"), upper/translate, no trailing "=", pad, b32decode *)
+Definition b32hex_decode (t : list Z) : res (list Z) :=
+  if negb (forallb (fun c => (0 <=? c) && (c <? 128)) t) then Internal iUnicodeEncode
+  else if ends_with [61] t then Internal iBinascii
+  else match opt_map b32hex_val t with
+       | Some vs => b32_decode_values vs
+       | None => Internal iBinascii
+       end.
+
 (* ---------- printing ---------- *)
 (* Name.to_styled_text(style) with idna_codec None, omit_final_dot False *)
 Definition name_to_styled_text (st : style) (n : name) : res (list Z) :=
@@ -468,6 +529,7 @@ Definition print_field (st : style) (f : tfield) (v : tval) : res (list Z) :=
   | FAlg, VInt z => Ok (dec z)
   | FTag, VBytes b => Ok (escapify b)
   | FBitmap, VWindows ws => bitmap_to_text ws
+  | FB32, VBytes b => Ok (b32hex_encode b)
   | _, _ => Internal eBadCase
   end.
 
@@ -523,6 +585,7 @@ Definition parse_field (c : pctx) (f : tfield) (st : tstate) : res (tval * tstat
       else do e <- utf8_encode (fst ts); do b <- unhexlify e; Ok (VBytes b, snd ts)
   | FAlg => do ts <- get_string st 0; Ok (VBytes (fst ts), snd ts)
   | FTag => do ts <- get_string st 0; do b <- utf8_encode (fst ts); Ok (VBytes b, snd ts)
+  | FB32 => do ts <- get_string st 0; do b <- b32hex_decode (fst ts); Ok (VBytes b, snd ts)
   | FBitmap =>
       do ts <- get_remaining st 0;
       do types <- map_res bitmap_token_type (fst ts);
@@ -548,6 +611,7 @@ Definition ctor_field (f : tfield) (v : tval) : res tval :=
       else Ok v
   | FAddr v6, VBytes t => do b <- (if v6 then ipv6_aton t else ipv4_aton t); Ok (VBytes b)
   | FHexTok, VBytes b => if zlen b >? 255 then Internal iValueError else Ok v
+  | FB32, VBytes b => if zlen b >? 255 then Internal iValueError else Ok v
   | FAlg, VBytes t => do z <- alg_from_text t; Ok (VInt z)
   | FTag, VBytes b =>
       if (zlen b >? 255) || is_nil b || negb (forallb is_alnum b) then Internal iValueError else Ok v
@@ -589,6 +653,7 @@ Definition schema_of (rdtype : Z) : option (list tfield) :=
   else if rdtype =? 257 then Some [u8; FTag; FQStr 0 0 false]                       (* CAA *)
   else if rdtype =? 47 then Some [FName; FBitmap]                                   (* NSEC *)
   else if rdtype =? 62 then Some [u32; u16; FBitmap]                                (* CSYNC *)
+  else if rdtype =? 50 then Some [u8; u8; u16; FHexTok; FB32; FBitmap]              (* NSEC3 *)
   else if (rdtype =? 2) || (rdtype =? 5) || (rdtype =? 12) || (rdtype =? 39) || (rdtype =? 23)
   then Some [FName]                                        (* NS CNAME PTR DNAME NSAP-PTR *)
   else if (rdtype =? 15) || (rdtype =? 18) || (rdtype =? 21) || (rdtype =? 36) || (rdtype =? 107)
@@ -643,6 +708,7 @@ Fixpoint vals_of_obs (fs : list tfield) (os : list obs) : option (list tval) :=
           | FAddr _, B b => Some (VBytes b :: r)
           | FHexTok, B b => Some (VBytes b :: r)
           | FTag, B b => Some (VBytes b :: r)
+          | FB32, B b => Some (VBytes b :: r)
           | FAlg, I z => Some (VInt z :: r)
           | FBitmap, L l => match windows_of_obs l with Some w => Some (VWindows w :: r) | None => None end
           | FName, L l => match name_of_obs l with Some n => Some (VName n :: r) | None => None end
@@ -706,6 +772,9 @@ Definition run_addr (c : obs) : obs :=
       | Some w => L (map I (bitmap_types w))
       | None => E eBadCase
       end
+  | L [I 58; B d] => B (b32hex_encode d)
+  | L [I 59; t] =>
+      match text_of_obs t with Some s => TokM.obs_of_res B (b32hex_decode s) | None => E eBadCase end
   | L [I 56; I v] => TokM.obs_of_res obs_of_text (rdtype_to_text v)
   | L [I 57; t] =>
       match text_of_obs t with Some s => TokM.obs_of_res I (rdtype_from_text s) | None => E eBadCase end
